@@ -116,6 +116,8 @@ func genC09(ctx *Ctx) {
 	}
 }
 
+var c09Used *csv.CsvTokenizer
+
 func runC09(in sx.SX) (sx.SX, string) {
 	l := sx.AsList(in)
 	obs, fail := runTok("none")(in)
@@ -145,6 +147,37 @@ func runC09(in sx.SX) (sx.SX, string) {
 	}
 	row = append(row, field)
 	rows = append(rows, row)
+	// one tokenizer object that lives through the whole run: it first reads this text under the configuration the
+	// previous case left, is then given this case's separators and quote symbols, and must read the text as a new tokenizer
+	// with that configuration does
+	if fail == "" {
+		if fresh, ok := newTokenizer(int(sx.AsInt(l[0])), l[3]).(*csv.CsvTokenizer); ok {
+			seps := append([]rune{}, fresh.FieldSeparators()...)
+			quotes := append([]rune{}, fresh.QuoteSymbols()...)
+			if c09Used == nil {
+				c09Used = csv.NewCsvTokenizer()
+			}
+			setOptions(c09Used, int(sx.AsInt(l[1])))
+			text := sx.AsString(l[2])
+			done := func() (ok bool) {
+				defer func() {
+					if recover() != nil {
+						ok = false
+					}
+				}()
+				c09Used.TokenizeBuffer(text)
+				c09Used.SetFieldSeparators([]rune{0x1})
+				c09Used.SetQuoteSymbols(quotes)
+				c09Used.SetFieldSeparators(seps)
+				return true
+			}()
+			if !done {
+				c09Used = nil // a refused configuration: start again with a new object
+			} else if again := sx.Text(tokensSX(c09Used.TokenizeBuffer(text))); again != sx.Text(obs) {
+				fail = fmt.Sprintf("a tokenizer that read the text under another configuration and was then given separators %q and quotes %q reads %s, a new tokenizer with that configuration %s", string(seps), string(quotes), again, sx.Text(obs))
+			}
+		}
+	}
 	want := sx.AsList(l[4])
 	if fail == "" {
 		if len(rows) != len(want) {
